@@ -484,3 +484,69 @@ def patch_dir_listing(order_key):
 def unpatch_dir_listing():
     os.scandir = _real_scandir
     os.listdir = _real_listdir
+
+
+# ---------------------------------------------------------------------------
+# simulated clock (fault: clock jumps).  cm_colors reads no clock on the pinned tree; a change that starts to
+# (a time budget, a cache expiry, a timestamp in a key) makes results depend on something that is not an argument.
+
+_CLOCK_FUNCS = ("time", "monotonic", "perf_counter", "process_time", "thread_time")
+_clock_saved = {}
+_clock_rebound = []
+clock_reads = [0]
+
+
+def install_sim_clock(seed):
+    """While installed, every clock read made FROM A cm_colors FRAME returns the real value plus a simulated offset that
+    jumps forward at each read (seeded: 0, a millisecond, seconds, an hour). Callers outside cm_colors see real time."""
+    import random
+    import time as _time
+
+    if _clock_saved:
+        return
+    rng = random.Random("%s|clock" % seed)
+    offset = [0.0]
+    clock_reads[0] = 0
+
+    def wrap(name, real, ns):
+        def fn(*a):
+            try:
+                caller = sys._getframe(1).f_globals.get("__name__", "")
+            except Exception:
+                caller = ""
+            if caller.startswith("cm_colors"):
+                clock_reads[0] += 1
+                offset[0] += rng.choice((0.0, 0.001, 0.5, 2.0, 30.0, 3600.0))
+                return real(*a) + (int(offset[0] * 1e9) if ns else offset[0])
+            return real(*a)
+
+        fn.__name__ = name
+        return fn
+
+    for base_name in _CLOCK_FUNCS:
+        for ns in (False, True):
+            name = base_name + ("_ns" if ns else "")
+            real = getattr(_time, name, None)
+            if real is not None:
+                _clock_saved[name] = real
+                w = wrap(name, real, ns)
+                setattr(_time, name, w)
+                # names bound with `from time import ...` inside cm_colors modules
+                for mname, mod in list(sys.modules.items()):
+                    if mname.startswith("cm_colors") and mod is not None:
+                        for attr, val in list(vars(mod).items()):
+                            if val is real:
+                                _clock_rebound.append((mod, attr, real))
+                                setattr(mod, attr, w)
+
+
+def uninstall_sim_clock():
+    import time as _time
+
+    for name, real in _clock_saved.items():
+        setattr(_time, name, real)
+    for mod, attr, real in _clock_rebound:
+        setattr(mod, attr, real)
+    del _clock_rebound[:]
+    _clock_saved.clear()
+    return clock_reads[0]
